@@ -263,8 +263,32 @@ Proof.
   rewrite firstn_app_len, Nat.min_id, firstn_all. apply decode_widen. exact Hs.
 Qed.
 
+Lemma nthN_none : forall (A : Type) (l : list A) i, N.of_nat (length l) <= i -> nthN l i = None.
+Proof.
+  induction l as [|x l IH]; intros i H; [reflexivity|]. cbn [nthN length] in *.
+  destruct (i =? 0) eqn:E; [apply N.eqb_eq in E; lia|]. apply N.eqb_neq in E. apply IH. lia.
+Qed.
+
+(* the table of the code is the table of MS-XLS 2.5.114 *)
+Lemma builtin_table : forall c, nthN BUILTIN_NAMES c = builtin_name c.
+Proof.
+  intros c. destruct c as [|p]; [reflexivity|].
+  do 4 (destruct p as [p|p|]; try reflexivity).
+  all: cbn [builtin_name]; apply nthN_none; unfold BUILTIN_NAMES; cbn [length]; lia.
+Qed.
+
+Lemma testbit5_mod256 : forall n, N.testbit (n mod 256) 5 = N.testbit n 5.
+Proof. intros n. change 256 with (2 ^ 8). apply N.mod_pow2_bits_low. lia. Qed.
+
+Lemma builtin_fix_logical : forall d, builtin_fix (lb_flags d mod 256) (lb_name d) = lb_logical d.
+Proof.
+  intros d. unfold builtin_fix, lb_logical. rewrite testbit5_mod256.
+  destruct (N.testbit (lb_flags d) 5); [|reflexivity].
+  destruct (lb_name d) as [|c [|c' t]]; try reflexivity. rewrite builtin_table. reflexivity.
+Qed.
+
 Lemma xls_lbl_enc : forall d, wf_lbl d = true ->
-  xls_lbl (enc_lbl d) = do f <- parse_defined_names (lb_rgce d); Ok (lb_name d, (f, lb_rgce d)).
+  xls_lbl (enc_lbl d) = do f <- parse_defined_names (lb_rgce d); Ok (lb_logical d, (f, lb_rgce d)).
 Proof.
   intros d Hwf. unfold wf_lbl in Hwf.
   apply andb_prop in Hwf. destruct Hwf as [Hwf Hce]. apply andb_prop in Hwf. destruct Hwf as [Hwf Hnm].
@@ -295,7 +319,7 @@ Proof.
   { unfold str, cch. destruct (lb_wide d); apply andb_prop in Hnm; destruct Hnm as [Hs _]; rewrite Nat2N.id.
     - apply unicode_no_cch_wide. exact Hs.
     - apply unicode_no_cch_narrow. exact Hs. }
-  rewrite Hname. reflexivity.
+  rewrite Hname. change (nth 0 data 0) with (lb_flags d mod 256). rewrite builtin_fix_logical. reflexivity.
 Qed.
 
 Lemma enc_xti16_length : forall xtis, length (flat_map enc_xti16 xtis) = (6 * length xtis)%nat.
@@ -364,7 +388,7 @@ Proof.
       rewrite IH by exact Ht. reflexivity.
 Qed.
 
-Lemma spec_lbls_fst : forall ds r, spec_lbls ds = Ok r -> map fst r = map lb_name ds.
+Lemma spec_lbls_fst : forall ds r, spec_lbls ds = Ok r -> map fst r = map lb_logical ds.
 Proof.
   induction ds as [|d t IH]; intros r H.
   - cbn in H. injection H as <-. reflexivity.
@@ -420,7 +444,7 @@ Qed.
 
 Theorem defined_names_in_order_xls : forall show_f64 sheets gs names xtis, forallb wf_grec gs = true ->
   xls_read_names show_f64 sheets (map enc_grec gs) = Ok (names, xtis) ->
-  map fst names = map lb_name (lbls_of gs) /\ xtis = xtis_of gs.
+  map fst names = map lb_logical (lbls_of gs) /\ xtis = xtis_of gs.
 Proof.
   intros show_f64 sheets gs names xtis Hwf H.
   destruct (xls_read_names_unfold _ _ _ Hwf H) as (raw & Er & Ex & El).
@@ -428,7 +452,7 @@ Proof.
 Qed.
 
 Lemma spec_lbls_nth : forall ds raw i d, spec_lbls ds = Ok raw -> nth_error ds i = Some d ->
-  exists f, nth_error raw i = Some (lb_name d, (f, lb_rgce d)).
+  exists f, nth_error raw i = Some (lb_logical d, (f, lb_rgce d)).
 Proof.
   induction ds as [|a t IH]; intros raw i d H Hn; [destruct i; discriminate|].
   cbn [spec_lbls] in H. destruct (parse_defined_names (lb_rgce a)) as [f|c| |]; cbn [obind] in H; try discriminate.
@@ -448,9 +472,9 @@ Theorem defined_name_text_is_render_xls : forall show_f64 sheets gs names xtis i
   xls_read_names show_f64 sheets (map enc_grec gs) = Ok (names, xtis) ->
   nth_error (lbls_of gs) i = Some d -> lb_rgce d = encode_xls e ->
   N.of_nat (length (encode_xls e)) < 65536 ->
-  let env := {| xe_sheets := map sheet_text sheets; xe_names := map lb_name (lbls_of gs); xe_xtis := xtis_of gs |} in
+  let env := {| xe_sheets := map sheet_text sheets; xe_names := map lb_logical (lbls_of gs); xe_xtis := xtis_of gs; xe_base := None |} in
   wf_xls env e = true ->
-  nth_error names i = Some (lb_name d, render_xls show_f64 env e).
+  nth_error names i = Some (lb_logical d, render_xls show_f64 env e).
 Proof.
   intros show_f64 sheets gs names xtis i d e Hwf H Hn Hr Hlen env Hwe.
   destruct (xls_read_names_unfold _ _ _ Hwf H) as (raw & Er & Ex & El).
@@ -465,7 +489,7 @@ Qed.
 Theorem name_index_stable_xls : forall show_f64 sheets gs names xtis i d, forallb wf_grec gs = true ->
   xls_read_names show_f64 sheets (map enc_grec gs) = Ok (names, xtis) ->
   nth_error (lbls_of gs) i = Some d ->
-  spec_name (map fst names) (N.of_nat i + 1) = lb_name d.
+  spec_name (map fst names) (N.of_nat i + 1) = lb_logical d.
 Proof.
   intros show_f64 sheets gs names xtis i d Hwf H Hn.
   destruct (defined_names_in_order_xls _ _ _ Hwf H) as [Hm _].
@@ -477,8 +501,8 @@ Theorem ptgname_is_ith_record_xls : forall show_f64 sheets gs names xtis i d k,
   forallb wf_grec gs = true ->
   xls_read_names show_f64 sheets (map enc_grec gs) = Ok (names, xtis) ->
   nth_error (lbls_of gs) i = Some d -> N.of_nat i + 1 < 4294967296 ->
-  xls_parse_formula show_f64 {| xe_sheets := sheets; xe_names := map fst names; xe_xtis := xtis |}
-    (frame_xls (encode_xls (EName k (N.of_nat i + 1)))) = Ok (lb_name d).
+  xls_parse_formula show_f64 {| xe_sheets := sheets; xe_names := map fst names; xe_xtis := xtis; xe_base := None |}
+    (frame_xls (encode_xls (EName k (N.of_nat i + 1)))) = Ok (lb_logical d).
 Proof.
   intros show_f64 sheets gs names xtis i d k Hwf H Hn Hi.
   rewrite rpn_correct_xls.
@@ -499,7 +523,7 @@ Qed.
 Theorem sheet3d_through_xti_xls : forall show_f64 sheets gs names xtis i x nm, forallb wf_grec gs = true ->
   xls_read_names show_f64 sheets (map enc_grec gs) = Ok (names, xtis) ->
   nth_error (xtis_of gs) i = Some x -> snd (fst x) < 32768 ->
-  spec_sheet_xls {| xe_sheets := map quote_sheet_name sheets; xe_names := nm; xe_xtis := xtis |} (N.of_nat i)
+  spec_sheet_xls {| xe_sheets := map quote_sheet_name sheets; xe_names := nm; xe_xtis := xtis; xe_base := None |} (N.of_nat i)
   = match nthN sheets (snd (fst x)) with Some s => sheet_text s | None => lit "#REF" end.
 Proof.
   intros show_f64 sheets gs names xtis i x nm Hwf H Hn Hx.
@@ -591,7 +615,7 @@ Definition ex_globals : list grec :=
 Example xls_names_nonvacuous :
   forallb wf_grec ex_globals = true /\
   xls_read_names (fun _ => []) [lit "S1"; lit "My Sheet"] (map enc_grec ex_globals)
-  = Ok ([([13], lit "'My Sheet'!$A$1:$C$10"); ([26085; 128512], lit "S1!$AB$5")], [(0, 1, 1); (0, 0, 0)]).
+  = Ok ([(lit "_xlnm._FilterDatabase", lit "'My Sheet'!$A$1:$C$10"); ([26085; 128512], lit "S1!$AB$5")], [(0, 1, 1); (0, 0, 0)]).
 Proof. vm_compute. repeat split. Qed.
 
 (* ---------- former known class K_XLS_NAME_FORMULA (repaired): a name defined by a constant, by an
@@ -612,9 +636,10 @@ Example xls_name_formulas_nonvacuous :
          (lit "Odd", lit "Unsupported ptg: 1e")], [(0, 0, 0)]).
 Proof. vm_compute. repeat split. Qed.
 
-(* ---------- known class K_PTGEXP: the member cells of a shared / array formula carry PtgExp; both
-   decoders answer the empty text for it, whatever the SHRFMLA / BrtShrFmla record holds (they do
-   not even receive it) ---------- *)
+(* ---------- PtgExp by itself: both decoders answer the empty text for it.  xls (since the commit "fix: xls
+   cells of shared and array formulas …"): the sheet loop then replaces the text by the formula of the
+   SHRFMLA / ARRAY record the token names (FormulaSheet.v; this lemma is the "text so far" of such a
+   cell).  xlsb: nothing looks at BrtShrFmla / BrtArrFmla — known class K_PTGEXP, now xlsb only ---------- *)
 Theorem refuted_ptgexp : forall show_f64 xenv benv r c, r < 65536 -> c < 65536 ->
   xls_parse_formula show_f64 xenv (frame_xls (0x01 :: le 2 r ++ le 2 c)) = Ok [] /\
   xlsb_parse_formula show_f64 benv (0x01 :: le 4 r) = Ok [].
